@@ -27,7 +27,8 @@ Ops (JSON lists), names are small integers (0 = the logged-in user, 1..4 remote 
                          (monitor only: the model is atomic per op)
   ["gate", target, trigger, [op, ...]]
                          SUSPENDED SEND (monitor only). `drain()` of the library-side socket of `target` blocks
-                         (FakeWriter.drain_gate): target = "new" (the connection created by trigger, an "in" op),
+                         (and returns normally after release, also when the socket was closed cleanly meanwhile,
+                         as asyncio's flow control does): target = "new" (the connection created by trigger, an "in" op),
                          a connection id, or "server". Then `trigger` is issued and the loop run to quiescence
                          (the handler now hangs in its `await send_message(...)` to the target), each listed op
                          is issued and the loop run to quiescence with the send still suspended, finally the
@@ -173,7 +174,8 @@ async def _scenario(loop, case: dict):
             # associate library PeerConnection objects with remotes through the fake socket pair
             for r in w.remotes:
                 if r.lib_conn is None:
-                    for pc in list(net.peer_connections) + [p.connection for p in dn.distributed_peers]:
+                    extra = [p.connection for p in dn.children] + ([dn.parent.connection] if dn.parent else [])
+                    for pc in list(net.peer_connections) + [p.connection for p in dn.distributed_peers] + extra:
                         if pc._writer is not None and pc._writer is r.writer.peer:
                             r.lib_conn = pc
                             break
@@ -328,8 +330,16 @@ async def _scenario(loop, case: dict):
                 gates = []
 
                 def gate_writer(wr):
+                    # drain() of this library-side socket blocks until released. asyncio semantics
+                    # (FlowControlMixin.connection_lost): a drain waiter blocked by flow control is woken with
+                    # result None when the connection is closed cleanly meanwhile (no exception) — unlike
+                    # FakeWriter.drain_gate, which raises after the gate when the socket was closed; so the
+                    # instance's drain is overridden for the duration of the gate.
                     ev = asyncio.Event()
-                    wr.drain_gate = ev
+
+                    async def gated_drain():
+                        await ev.wait()
+                    wr.drain = gated_drain
                     gates.append((wr, ev))
                 try:
                     if target == 'server':
@@ -342,14 +352,19 @@ async def _scenario(loop, case: dict):
                     sts = [await issue(trigger)]
                     state['gate_next_in'] = None
                     await settle()
+                    bind_lib_conns()
                     for sub in during:
                         sts.append(await issue(sub))
                         await settle()
+                        bind_lib_conns()
                 finally:
                     state['gate_next_in'] = None
                     for wr, ev in gates:
                         ev.set()
-                        wr.drain_gate = None
+                        try:
+                            del wr.drain
+                        except AttributeError:
+                            pass
                 status = 'gate:' + ','.join(sts) + ('' if gates else ':ungated')
             else:
                 status = await issue(op)
@@ -449,7 +464,9 @@ def _monitor(case: dict, trace: list) -> list[Violation]:
             if (not inp or p is None or stt != 'CONNECTED' or not p['registered'] or p['ctype'] != 'D'
                     or not p['remote_open']):
                 add('C13-dead-child', f'child connection {c} is not a live registered distributed connection '
-                    f'(state {stt})', k, observed=p)
+                    f'(state {stt}, in distributed_peers: {inp}, in the network registry: '
+                    f'{None if p is None else p["registered"]}, socket open: '
+                    f'{None if p is None else p["remote_open"]})', k, observed=p)
         if len(set(map(str, s['children']))) != len(s['children']):
             add('C13-dead-child', 'a connection is listed twice as child', k, observed=s['children'])
         # --- admission
@@ -652,8 +669,8 @@ def _gen_case(rng: random.Random, kind: Optional[str] = None) -> dict:
         do(['burst', sub])
     elif kind == 'gate':
         # a send is suspended while further events are handled (monitor only)
-        variant = rng.choice(['stale', 'stale', 'slot', 'slot', 'close', 'server-set', 'server-unset', 'child',
-                              'mixed'])
+        variant = rng.choice(['stale', 'stale', 'slot', 'slot', 'close', 'server-set', 'server-unset', 'server-two',
+                              'child', 'mixed'])
         others = [r for r in roots if r != ME]
 
         def make_parent():
@@ -712,6 +729,19 @@ def _gen_case(rng: random.Random, kind: Optional[str] = None) -> dict:
             if rng.random() < 0.4:
                 during.append(rng.choice(parent_events(pc) + [['in', rng.choice(peers)]]))
             do(['gate', 'server', ['level', pc, rng.choice([1, 2])], during])   # _set_parent hangs in the notify
+        elif variant == 'server-two':
+            # two candidates become complete while the notification of the server is suspended
+            if rng.random() < 0.4:
+                do(['in', rng.choice(peers)])
+            a, b = rng.sample(peers, 2)
+            ac = nconn
+            do(['pp', [a, b]])
+            do(['root', ac, rng.choice([r for r in others if r != a])])
+            do(['root', ac + 1, rng.choice([r for r in others if r != b])])
+            during = [['level', ac + 1, rng.choice([1, 2, 3])]]
+            if rng.random() < 0.4:
+                during.append(rng.choice([['in', rng.choice(peers)], ['close', ac], ['level', ac, 5]]))
+            do(['gate', 'server', ['level', ac, rng.choice([1, 2])], during])
         elif variant == 'server-unset':
             if rng.random() < 0.5:
                 do(['in', rng.choice(peers)])
@@ -788,6 +818,15 @@ WITNESSES = {
     'child-added-without-session': {'ops': [['session'], ['lost'], ['in', 1], ['session']], 'kind': 'witness'},
     'parent-lost-without-session': {'ops': [['session'], ['in', 2], ['pp', [1]], ['level', 1, 1], ['root', 1, 5],
                                             ['lost'], ['close', 1], ['session']], 'kind': 'witness'},
+    # suspended-send schedules (monitor only)
+    'add-child-stale-root': {'ops': [['session'], ['pp', [3]], ['level', 0, 2], ['root', 0, 6],
+                                     ['gate', 'new', ['in', 2], [['close', 0]]]], 'kind': 'witness'},
+    'gate-parent-announces-during-send': {'ops': [['session'], ['pp', [3]], ['level', 0, 2], ['root', 0, 6],
+                                                  ['gate', 'new', ['in', 2], [['level', 0, 4], ['root', 0, 5]]]],
+                                          'kind': 'witness'},
+    'gate-slot-race': {'ops': [['session'], ['stats', 0, 5120], ['gate', 'new', ['in', 4], [['in', 2]]]],
+                       'kind': 'witness'},
+    'gate-close-during-send': {'ops': [['session'], ['gate', 'new', ['in', 4], [['close', 0]]]], 'kind': 'witness'},
     'parent-connects-as-child': {'ops': [['session'], ['pp', [1]], ['level', 0, 0]] + [['pp', [2, 2, 2, 2]]] * 5 +
                                  [['in', 1]], 'kind': 'witness'},
 }
